@@ -155,6 +155,18 @@ ZOO: dict[str, dict] = {
             "link": {"attrs": {"href": {}, "title": {"default": None}}, "inclusive": False},
         },
     },
+    # several non-inclusive mark types that coexist on one node (two of one type included): what `marks()` at a
+    # boundary has to drop one by one
+    "non_inclusive": {
+        "nodes": copy.deepcopy(_LIST),
+        "marks": {
+            "em": {},
+            "link": {"attrs": {"href": {}, "title": {"default": None}}, "inclusive": False},
+            "tag": {"excludes": "", "inclusive": False, "attrs": {"id": {}}},
+            "code": {"inclusive": False},
+            "strong": {},
+        },
+    },
     "remark_user": {
         "nodes": copy.deepcopy(_LIST),
         "marks": {
@@ -179,7 +191,7 @@ GROUP_V = [
     "table_iso",
 ]
 GROUP_X = ["fixed", "structure"]
-MARK_VARIANTS = ["comment", "big_small", "remark_user", "asym_chain"]
+MARK_VARIANTS = ["comment", "big_small", "remark_user", "asym_chain", "non_inclusive"]
 ISOLATING = ["iso", "table", "table_strict", "table_iso"]
 
 _cache: dict[str, tuple[Any, RefSchema]] = {}
@@ -420,10 +432,15 @@ def default_choice_terminates(lib: Any, rs: RefSchema) -> bool:
     group and that a schema whose first choice needs itself overflows the stack. Such schemas are outside
     'well-founded'. The library's own default choice is consulted here for *steering only* (which random
     schemas are used), never for a verdict."""
+    import gc
     import sys
 
     old = sys.getrecursionlimit()
     sys.setrecursionlimit(600)
+    # no collection while the probe may be at the bottom of the stack: Hypothesis' gc callback would overflow there
+    # and Python would print "Exception ignored in ... gc_callback" for it (noise on stderr, not a result)
+    gc_was = gc.isenabled()
+    gc.disable()
     try:
         for t in rs.node_names:
             if rs.generatable[t]:
@@ -435,6 +452,8 @@ def default_choice_terminates(lib: Any, rs: RefSchema) -> bool:
         return True
     finally:
         sys.setrecursionlimit(old)
+        if gc_was:
+            gc.enable()
 
 
 def random_schema(R: Draw, tries: int = 6) -> dict | None:
